@@ -56,6 +56,10 @@ pub struct Inner {
   progress: u64,
   /// times a thread found a real lock busy
   pub real_blocks: u64,
+  /// sites at which a thread has ever reported LockBlocked: the schedule point in front of such a
+  /// probe is not progress (a blocked thread re-probing must not re-enable other blocked threads,
+  /// or the space of schedules is infinite)
+  probe_sites: Vec<&'static str>,
 }
 
 pub struct Sched {
@@ -86,6 +90,7 @@ impl Sched {
         points: 0,
         progress: 0,
         real_blocks: 0,
+        probe_sites: vec![],
       }),
       cv: Condvar::new(),
     })
@@ -180,7 +185,13 @@ impl Sched {
   pub fn point(&self, me: usize, ev: Event, site: &'static str, obj: usize, flag: bool, at_hook: bool) {
     let mut g = self.m.lock().unwrap();
     g.points += 1;
-    g.progress += 1;
+    if ev == Event::LockBlocked && !g.probe_sites.contains(&site) {
+      g.probe_sites.push(site);
+    }
+    let probing = matches!(ev, Event::Access | Event::LockBlocked) && g.probe_sites.contains(&site);
+    if !probing {
+      g.progress += 1;
+    }
     if g.trace.len() < 400 {
       g.trace.push(format!("t{me} {ev:?} {site}{}", if flag { " (key present)" } else { "" }));
     }
